@@ -166,7 +166,10 @@ impl Subject for C25 {
         if std::env::var("VH_DEPTH").is_ok() {
             return vec![];
         }
-        let mut v = vec!["Tick", "Exec", "Batch", "Commit", "Sync", "Expire", "ExpireAll", "Partition"];
+        let mut v = vec!["Tick", "Exec", "Batch", "Commit", "Sync", "ExpireAll", "Partition"];
+        if self.cfg.expire_one {
+            v.push("Expire");
+        }
         if self.cfg.max_crashes > 0 {
             v.extend(["Crash", "Restart"]);
         }
@@ -201,17 +204,22 @@ fn configs(cli: &Cli) -> Vec<(Cfg, usize, u32, bool)> {
         standby_until: 0,
         fine_faults: false,
         max_partitions: 1,
+        expire_one: true,
     };
     let mut v = vec![];
     // standby: replica 0 produces `max_height` blocks alone (replica 1 follows over P2P), then both are free
     let standby = Cfg { standby_until: 2, max_epoch: 2, ..base.clone() };
-    match cli.tier {
-        Tier::Quick => {
+    // the quick configurations are part of both tiers (always run to completion)
+    {
+        {
             // every macro fault at every operation boundary, one height, one leader change
             v.push((Cfg { name: "C25/r2n3b0/h1".into(), max_height: 1, max_epoch: 2, ..base.clone() }, 400, 1, true));
-            // fail-over after two blocks; the one deviation is a static cut or a lease that expires on one node
-            v.push((Cfg { name: "C25/r2n3b0/h2/standby".into(), max_crashes: 0, allow_release: false, ..standby.clone() }, 400, 1, true));
+            // fail-over after two blocks; the one deviation is a static cut of one replica from one node
+            v.push((Cfg { name: "C25/r2n3b0/h2/standby".into(), max_crashes: 0, allow_release: false, expire_one: false, ..standby.clone() }, 400, 1, true));
         }
+    }
+    match cli.tier {
+        Tier::Quick => {}
         Tier::Thorough => {
             v.push((Cfg { name: "C25/r2n3b0/h2/standby/all".into(), ..standby.clone() }, 400, 1, true));
             v.push((Cfg { name: "C25/r2n3b0/h1/fine".into(), max_height: 1, max_epoch: 2, fine_faults: true, ..base.clone() }, 400, 1, true));
@@ -280,15 +288,16 @@ fn main() {
         machinery_failure("replay: unknown subject");
     }
     let cfgs = configs(&cli);
-    let n_cfgs = cfgs.len() as u64;
+    let n_quick = configs(&Cli { tier: Tier::Quick, ..cli.clone() }).len();
+    let n_deep = cfgs.len().saturating_sub(n_quick).max(1) as u64;
     let mut run = Run::new(&cli, "model_checking");
-    for (cfg, depth, devs, pre) in cfgs {
+    for (i, (cfg, depth, devs, pre)) in cfgs.into_iter().enumerate() {
         let s = C25 { cfg, bound_preemptions: pre };
         let mut b = Bounds::new(depth, &cli).deviations(devs);
         if let Some(w) = env("VH_WALL") {
             b = b.wall(w);
-        } else if cli.tier == Tier::Thorough {
-            b = b.wall(1400 / n_cfgs);
+        } else if i >= n_quick {
+            b = b.wall(1200 / n_deep);
         } else {
             // the quick bound is sized to finish in well under a minute on an idle 16-core
             // machine; on an overloaded one it must still finish (same verdict every time)
@@ -342,6 +351,7 @@ mod tests {
             standby_until: 0,
             fine_faults: true,
             max_partitions: 1,
+            expire_one: true,
         }
     }
 
@@ -385,7 +395,7 @@ mod bench {
     use super::*;
     #[test]
     fn bench_world() {
-        let cfg = Cfg { name: "t".into(), replicas: 2, nodes: 3, budget: 0, stream_max_len: 1000, exact_trim: false, max_height: 2, max_epoch: 5, max_crashes: 1, allow_release: true, allow_sync: true, standby_until: 0, fine_faults: true, max_partitions: 1 };
+        let cfg = Cfg { name: "t".into(), replicas: 2, nodes: 3, budget: 0, stream_max_len: 1000, exact_trim: false, max_height: 2, max_epoch: 5, max_crashes: 1, allow_release: true, allow_sync: true, standby_until: 0, fine_faults: true, max_partitions: 1, expire_one: true };
         let t = std::time::Instant::now();
         for _ in 0..50 {
             let w = World::new(cfg.clone()).unwrap();
@@ -473,7 +483,7 @@ mod directed {
     }
 
     fn cfg() -> Cfg {
-        Cfg { name: "t".into(), replicas: 2, nodes: 3, budget: 0, stream_max_len: 1000, exact_trim: false, max_height: 3, max_epoch: 9, max_crashes: 2, allow_release: true, allow_sync: true, standby_until: 0, fine_faults: true, max_partitions: 1 }
+        Cfg { name: "t".into(), replicas: 2, nodes: 3, budget: 0, stream_max_len: 1000, exact_trim: false, max_height: 3, max_epoch: 9, max_crashes: 2, allow_release: true, allow_sync: true, standby_until: 0, fine_faults: true, max_partitions: 1, expire_one: true }
     }
 
     /// Execute the queued call of replica r on node n whose description starts with `what`.
